@@ -45,6 +45,7 @@ type lgSched struct {
 	Inline   int      `json:"inline"`
 	Interval int      `json:"interval"`
 	Cache    bool     `json:"cache"`
+	Sync     *bool    `json:"sync"` // flush-on-ack (default true)
 	MBs      []int    `json:"mbs"`
 	Steps    []lgStep `json:"steps"`
 }
@@ -422,7 +423,7 @@ func lgRunSchedule(t *testing.T, sc lgSched) (lines []map[string]any, hits map[s
 				h.logConfig.ReadAheadSegments = 2 // read-ahead prefetch goroutines fill the cache behind reads and commits
 			}
 			h.cache = cache.NewSegmentCache(1 << 20)
-			h.flushOnAck = true
+			h.flushOnAck = sc.Sync == nil || *sc.Sync
 			h.autoCreateTopics = false
 			// the S3 health gate is C25's subject: keep the monitor from ever leaving "healthy" here
 			h.s3Health = broker.NewS3HealthMonitor(broker.S3HealthConfig{ErrorWarn: 2, ErrorCrit: 3, LatencyWarn: 1 << 60, LatencyCrit: 1 << 61})
@@ -540,6 +541,11 @@ func lgRunSchedule(t *testing.T, sc lgSched) (lines []map[string]any, hits map[s
 			}
 			st := plog.VerifStateLocked()
 			hw, _ := store.Store.NextOffset(readerCtx, lgTopic, 0)
+			storeHW := hw
+			if !h.flushOnAck && st.Next > hw {
+				hw = st.Next // flush-on-ack off: the fetch path raises the watermark to the in-memory tail
+			}
+			_ = storeHW
 			refl := [][]int64{}
 			refMu.Lock()
 			addRange := func(lo, hi int64) {
@@ -1006,7 +1012,7 @@ func TestVerifLogReplay(t *testing.T) {
 		for k, v := range h {
 			hits[k] += v
 		}
-		enc, _ := json.Marshal(map[string]any{"ev": "Reset", "src": "harness", "sched": n, "inline": s.Inline, "interval": s.Interval, "cache": s.Cache})
+		enc, _ := json.Marshal(map[string]any{"ev": "Reset", "src": "harness", "sched": n, "inline": s.Inline, "interval": s.Interval, "cache": s.Cache, "sync": s.Sync == nil || *s.Sync})
 		w.Write(enc)
 		w.WriteByte('\n')
 		for _, m := range lines {
